@@ -231,6 +231,50 @@ def worker(arg):
     return dict(viol=viol, stats=dict(stats), n=len(cases), accepted=accepted, distinct=[str(d) for d in distinct], samples=samples)
 
 
+VENDOR_A64 = os.path.join(os.path.dirname(VENDOR), "implemented_a64.json")
+
+
+def a64_accepted():
+    from vlib import a64gen
+    from vlib.props import c02
+    exe = build.build_driver("drv_emit_a64", "asan")
+    recs = isadb.a64_forms()
+    rc, out, err = common.run_child([exe, "--names", "1"], timeout=300)
+    known = set()
+    for ln in out.decode().splitlines():
+        p = ln.split()
+        if p and int(p[-1].split("=")[1]) in [int(x) for x in p[1:-1]]:
+            known.add(p[0])
+    cases, _ = a64gen.generate(recs, 20260927, "quick", known, nrandom=0)
+    cases = [c for c in cases if c["status"] == "ok"]
+    d = os.path.join(build.CACHE, "tmp")
+    os.makedirs(d, exist_ok=True)
+    path = os.path.join(d, "c13-a64-%d.txt" % os.getpid())
+    try:
+        with open(path, "w") as fh:
+            for i, c in enumerate(cases):
+                fh.write("%d %s\n" % (i, c["line"]))
+        rc, out, err = common.run_child([exe, "--cases", path], timeout=1800)
+    finally:
+        if os.path.exists(path):
+            os.unlink(path)
+    if common.sanitizer_report(err):
+        raise common.HarnessError("sanitizer report in the AArch64 acceptance sweep (C02 reports it): %s" % err[-300:])
+    lines = out.decode().splitlines()
+    if len(lines) != len(cases):
+        raise common.HarnessError("drv_emit_a64 returned %d records for %d cases" % (len(lines), len(cases)))
+    acc, errors, text = set(), {}, {}
+    for c, ln in zip(cases, lines):
+        r = json.loads(ln)
+        k = "%s|%s" % (c02.rec_id(recs[c["rec"]]), c["vclass"])
+        if r["err"] == 0 and r["bytes"]:
+            acc.add(k)
+        else:
+            errors[k] = r["err"]
+            text[k] = c["line"]
+    return {"accepted": acc, "errors": errors, "lines": text, "tried": len(cases)}
+
+
 def run(tier, args):
     chk = common.Check("C13", tier)
     exe = build.build_driver("drv_emit", "asan")
@@ -304,11 +348,28 @@ def run(tier, args):
             names += 1
             if got != iid:
                 chk.violation("alias-spelling:%s:%s" % (a, sp), "alias spelling '%s' of id %d (%s) resolves to id %d" % (sp, iid, canon.get((a, iid)), got), [a, iid, sp, got])
+    # AArch64 (no operand validator): the database forms the pinned release encodes must still be encoded. Fixed generator
+    # seed, so that the vendored list is independent of VERIF_SEED; every valid ('ok') variant of every record counts.
+    a64 = a64_accepted()
+    if os.environ.get("VERIF_C13_WRITE_VENDOR"):
+        json.dump(sorted(a64["accepted"]), open(VENDOR_A64, "w"), indent=0)
+    if not os.path.exists(VENDOR_A64):
+        raise common.HarnessError("vendored implemented-form list missing: " + VENDOR_A64)
+    vend64 = set(json.load(open(VENDOR_A64)))
+    lost64 = sorted(vend64 - a64["accepted"])
+    by_rec = collections.OrderedDict()
+    for k in lost64:
+        by_rec.setdefault(k.split("|")[0], []).append(k)
+    for rid, ks in list(by_rec.items())[:200]:
+        chk.violation("a64-implemented-form-no-longer-accepted:%s" % rid.split(":")[0],
+                      "AArch64 database form %s (variant %s) accepted by the pinned release is now refused (error %s): %s [+%d more variants]" %
+                      (rid, ks[0].split("|", 1)[1], a64["errors"].get(ks[0], "?"), a64["lines"].get(ks[0], "?"), len(ks) - 1), {"a64": ks[:10]})
     # typed emitter methods must emit the instruction they are named after
     from vlib import typedemit
     typed = typedemit.check(chk)
     chk.coverage.update({
         "typed_emitter_methods": typed,
+        "a64_implemented_variants_vendored": len(vend64), "a64_implemented_variants_now": len(a64["accepted"]), "a64_valid_variants_tried": a64["tried"],
         "evaluations": n,
         "distinct_nontrivial": len(distinct),
         "rule": "one evaluation = one case validated directly and emitted with and without strict validation; distinct = (database form, mode) for form/excluded-mode cases and (database form, mutation kind, mode) for near-miss mutations; all are non-trivial (each compares three verdicts)",
